@@ -239,7 +239,13 @@ pub fn gen_attrs(t: &mut Tape) -> String {
 }
 
 pub fn tagged_style(t: &mut Tape, tag: Tag, allow_syntax: bool) -> String {
-    format!("{} {}{}", gen_fg(t, allow_syntax), tag.n(), gen_attrs(t))
+    let mut attrs = gen_attrs(t);
+    if tag.is_content() {
+        // `reverse` makes delta treat the foreground as the fill colour; the tag must stay the
+        // colour that fills empty lines
+        attrs = attrs.replace(" reverse", "");
+    }
+    format!("{} {}{}", gen_fg(t, allow_syntax), tag.n(), attrs)
 }
 
 #[derive(Clone, Copy, Debug)]
